@@ -863,17 +863,24 @@ func init() {
 				if ue, ok := e.(*ast.UnaryExpr); ok && ue.Op == token.AND {
 					e = ast.Unparen(ue.X)
 				}
-				cl, ok := e.(*ast.CompositeLit)
-				if !ok {
+				var elems []ast.Expr
+				if cl, ok := e.(*ast.CompositeLit); ok {
+					for _, el := range cl.Elts {
+						if kv, ok := el.(*ast.KeyValueExpr); ok {
+							elems = append(elems, kv.Value)
+						} else {
+							elems = append(elems, el)
+						}
+					}
+				} else if ce, ok := e.(*ast.CallExpr); ok && plainFieldConstructor(c, info, ce) {
+					// a constructor of the module that only stores its arguments (NewSourceContext(name, loc))
+					elems = append(elems, ce.Args...)
+				} else {
 					obs = append(obs, mkOb(c, "CONFINE.context-from-frame", u, construct, rs, Violated, "sourceContext returns `"+types.ExprString(rs.Results[0])+"`, not a context built from the top frame", true))
 					continue
 				}
 				bad := ""
-				for _, el := range cl.Elts {
-					v := el
-					if kv, ok := el.(*ast.KeyValueExpr); ok {
-						v = kv.Value
-					}
+				for _, v := range elems {
 					v = ast.Unparen(v)
 					if s, ok := constStringVal(info, v); ok && s == "" {
 						continue
@@ -900,6 +907,50 @@ func init() {
 			}
 			return obs
 		}})
+}
+
+// plainFieldConstructor: ce calls a function of the module whose whole body is `return &T{…}` / `return T{…}`
+// with every element one of its own parameters: the value it builds holds exactly the arguments.
+func plainFieldConstructor(c *Ctx, info *types.Info, ce *ast.CallExpr) bool {
+	h := originOf(Callee(info, ce))
+	if h == nil {
+		return false
+	}
+	hd := c.declOf[h]
+	if hd == nil || hd.Body == nil || len(hd.Body.List) != 1 {
+		return false
+	}
+	rs, ok := hd.Body.List[0].(*ast.ReturnStmt)
+	if !ok || len(rs.Results) != 1 {
+		return false
+	}
+	e := ast.Unparen(rs.Results[0])
+	if ue, ok := e.(*ast.UnaryExpr); ok && ue.Op == token.AND {
+		e = ast.Unparen(ue.X)
+	}
+	cl, ok := e.(*ast.CompositeLit)
+	if !ok {
+		return false
+	}
+	hinfo := c.pkgOf[hd].TypesInfo
+	sig := h.Type().(*types.Signature)
+	for _, el := range cl.Elts {
+		v := el
+		if kv, ok := el.(*ast.KeyValueExpr); ok {
+			v = kv.Value
+		}
+		o := identObj(hinfo, v)
+		isParam := false
+		for i := 0; i < sig.Params().Len(); i++ {
+			if sig.Params().At(i) == o {
+				isParam = true
+			}
+		}
+		if !isParam {
+			return false
+		}
+	}
+	return len(cl.Elts) == sig.Params().Len()
 }
 
 // QQ.single-walk — C07: quasiquote reproduces its template except at unquote
